@@ -278,7 +278,15 @@ def async_spec_funcs(c):
                 return VBool(pred(v.t))
             return VBool(False)
         return f
-    return {'builtin_inspect.iscoroutine': narrower('is_coroutine'), 'builtin_asyncio.iscoroutine': narrower('is_coroutine'),
+    is_future = narrower('is_future')
+
+    def isinstance_hook(I, v, n):
+        # isinstance(x, <a future class>): recognises SOME awaitables only, like gen.is_future
+        if n in ('gen.Future', 'Future', 'asyncio.Future', 'concurrent.futures.Future'):
+            return I.truth(is_future(I, [v], {}, None))
+        raise Unsupported('isinstance(..., %s)' % n)
+    return {'isinstance': isinstance_hook,
+            'builtin_inspect.iscoroutine': narrower('is_coroutine'), 'builtin_asyncio.iscoroutine': narrower('is_coroutine'),
             'builtin_inspect.isawaitable': isawaitable,
             'builtin_gen.is_future': narrower('is_future'), 'builtin_asyncio.isfuture': narrower('is_future'),
             'builtin_gen.sleep': gen_sleep, 'builtin_asyncio.sleep': gen_sleep, 'builtin_gen.isawaitable': isawaitable,
